@@ -53,10 +53,50 @@ static std::string lookups(const time_zone& tz, int* ub) {
   return s + "]";
 }
 
+// Events produced BEFORE main(), from a static initialiser of this translation unit (which is linked ahead of the
+// library): a program's own namespace-scope constants (`const time_zone kZone = fixed_time_zone(hours(1));`) use the
+// library that early, and the answers must be the same as later.
+static std::string fixed_event_simple(long o, const char* tag) {
+  time_zone tz = fixed_time_zone(seconds(o));
+  std::string name = tz.name();
+  time_zone byname;
+  bool loadok = load_time_zone(name, &byname);
+  seconds back(12345);
+  bool fromok = FixedOffsetFromName(FixedOffsetToName(seconds(o)), &back);
+  int ub = 0;
+  return "{\"e\":\"Fixed\",\"o\":" + std::to_string(o) + ",\"name\":" + bj(name) + ",\"toname\":" + bj(FixedOffsetToName(seconds(o))) +
+         ",\"toabbr\":" + bj(FixedOffsetToAbbr(seconds(o))) + ",\"fromok\":" + (fromok ? "1" : "0") + ",\"fromoff\":" +
+         std::to_string((long)back.count()) + ",\"loadok\":" + (loadok ? "1" : "0") + ",\"eq\":" + (byname == tz ? "1" : "0") +
+         ",\"isutc\":" + (tz == utc_time_zone() ? "1" : "0") + ",\"lookups\":" + lookups(tz, &ub) + ",\"calls\":0,\"ub\":" +
+         std::to_string(ub) + ",\"when\":\"" + tag + "\"}";
+}
+static std::string name_event_simple(const std::string& name, const char* tag) {
+  seconds off(777);
+  bool fok = FixedOffsetFromName(name, &off);
+  time_zone tz;
+  int calls0 = g_calls;
+  bool ok = load_time_zone(name, &tz);
+  int loff = tz.lookup(TP(seconds(0))).offset;
+  return "{\"e\":\"FixedName\",\"name\":" + bj(name) + ",\"fok\":" + (fok ? "1" : "0") + ",\"foff\":" + std::to_string(fok ? (long)off.count() : 0) +
+         ",\"ok\":" + (ok ? "1" : "0") + ",\"off\":" + std::to_string(loff) + ",\"tzname\":" + bj(tz.name()) + ",\"calls\":" +
+         std::to_string(g_calls - calls0) + ",\"ub\":0,\"when\":\"" + tag + "\"}";
+}
+static std::vector<std::string> g_premain_events;
+static const bool g_premain_done = []() {
+  for (long o : {3600L, -5400L, 86400L, -1L, 0L, 90000L}) g_premain_events.push_back(fixed_event_simple(o, "premain"));
+  for (const char* n : {"Fixed/UTC+01:00:00", "+01:00:00", "-07:00:00", "UTC", "Fixed/UTC-00:00:01", "Fixed/UTC"})
+    g_premain_events.push_back(name_event_simple(n, "premain"));
+  return true;
+}();
+
 int main(int argc, char** argv) {
   if (argc < 7) return 2;
   vt::install_trap_handler();
   vt::Shards out(argv[1], atoi(argv[2]));
+  for (const std::string& e : g_premain_events) out.emit(e);
+  // ... and the same questions again now (a zone cached before main() must be the one loaded by name afterwards)
+  for (long o : {3600L, -5400L, 86400L}) out.emit(fixed_event_simple(o, "main"));
+  for (const char* n : {"Fixed/UTC+01:00:00", "+01:00:00", "-07:00:00"}) out.emit(name_event_simple(n, "main"));
   long lo = atol(argv[3]), hi = atol(argv[4]), step = atol(argv[5]);
   for (long o = lo; o <= hi; o += step) {
     int ub = 0;
